@@ -4,7 +4,7 @@
    A Go `error` is a value of the outcome (the code keeps going after some errors and uses
    errors as control signals); the writer is a trace with an optional fault position. *)
 From DT Require Import Model.Bytes Model.Value Model.Tree Model.Utf8
-  Model.EscURL Model.EscJSON Model.EscHTML Model.EscJS.
+  Model.EscURL Model.EscJSON Model.EscHTML Model.EscJS Model.Mods.
 Local Open Scope Z_scope.
 
 Inductive err :=
@@ -209,6 +209,10 @@ Definition ctx_cmp (flits : list (bytes * Z)) (c : ctx) (path : bytes) (o : op) 
   end.
 
 (* Ctx.cmpLC: len()/cap() of the addressed value compared as an int *)
+Definition lc_value (s : slot) (rest : list bytes) : value :=
+  if is_nil (s_val s) && nonempty (s_buf s) then VBytes (s_buf s)
+  else if s_static s then s_val s else ins_get (s_val s) rest.
+
 Definition ctx_cmp_lc (c : ctx) (mode : lcmode) (path : bytes) (o : op) (lit : bytes) : ctx * bool :=
   let c := set_cerr None c in
   let (c, path) := if chQB c then replace_qb c path else (c, path) in
@@ -221,23 +225,20 @@ Definition ctx_cmp_lc (c : ctx) (mode : lcmode) (path : bytes) (o : op) (lit : b
       match mode with
       | LcNone => (c, false)
       | _ =>
-        match leaf_len (if s_static s then s_val s else ins_get (s_val s) rest) with
+        (* the static inspector answers 0 for anything that has no length *)
+        match (match leaf_len (lc_value s rest) with Some n => Some n | None => if s_static s then Some 0 else None end) with
         | Some n =>
           match option_map (cmp_Z (cmp_of_op o) n) (parse_Z lit) with
           | Some b => (set_bufB b c, b)
           | None => (set_bufB false c, false)
           end
-        | None => (set_bufB false c, false)
+        | None => (set_bufB false (set_cerr (Some EInspector) c), false)
         end
       end
     end
   end.
 
 (* ------------------------------------------------------------------ modifiers *)
-
-Inductive argval := AVal (v : value) | AKV (k : bytes) (v : value).
-
-Definition arg_value (a : argval) : value := match a with AVal v => v | AKV _ v => v end.
 
 (* collection of a modifier's (or helper's) arguments; every non-static one is a ctx.get *)
 Fixpoint collect_args (c : ctx) (args : list targ) : ctx * list argval :=
@@ -251,118 +252,35 @@ Fixpoint collect_args (c : ctx) (args : list targ) : ctx * list argval :=
     (c2, (match a_name a with [] => AVal v | k => AKV k v end) :: vs)
   end.
 
-(* printIterations: repeat count from the first argument when it is literal text *)
-Definition print_iterations (args : list argval) : Z :=
-  match args with
-  | AVal (VBytes s) :: _ => match parse_Z s with Some n => n | None => 1 end
-  | _ => 1
-  end.
-
 Inductive modres :=
 | MOk (c : ctx) (v : value)
 | MErr (c : ctx) (e : err)
 | MUnsupported.            (* a modifier this model does not describe: the case is set aside, not judged *)
 
-Definition bytes_of_str (s : list byte) : bytes := s.
-
-Definition ascii_upper (s : bytes) : bytes :=
-  map (fun b => if is_lower b then n2b (b2n b - 32) else b) s.
-
-Definition name_is (id : bytes) (names : list bytes) : bool := existsb (bytes_eqb id) names.
-
-Local Open Scope byte_scope.
-Definition n_default := [["d";"e";"f";"a";"u";"l";"t"]; ["d";"e";"f"]].
-Definition n_ifthen := [["i";"f";"T";"h";"e";"n"]; ["i";"f"]].
-Definition n_ifthenelse := [["i";"f";"T";"h";"e";"n";"E";"l";"s";"e"]; ["i";"f";"e";"l"]].
-Definition n_jsonescape := [["j";"s";"o";"n";"E";"s";"c";"a";"p";"e"]; ["j";"e"]].
-Definition n_jsonquote := [["j";"s";"o";"n";"Q";"u";"o";"t";"e"]; ["j";"q"]].
-Definition n_htmlescape := [["h";"t";"m";"l";"E";"s";"c";"a";"p";"e"]; ["h";"e"]].
-Definition n_linkescape := [["l";"i";"n";"k";"E";"s";"c";"a";"p";"e"]; ["l";"e"]].
-Definition n_urlencode := [["u";"r";"l";"E";"n";"c";"o";"d";"e"]; ["u";"e"]].
-Definition n_attrescape := [["a";"t";"t";"r";"E";"s";"c";"a";"p";"e"]; ["a";"e"]].
-Definition n_cssescape := [["c";"s";"s";"E";"s";"c";"a";"p";"e"]; ["c";"e"]].
-Definition n_jsescape := [["j";"s";"E";"s";"c";"a";"p";"e"]; ["j";"s";"e"]].
-(* modifiers registered by the harness, with reference semantics fixed here *)
-Definition n_vup := [["v";"u";"p"]].
-Definition n_vcat := [["v";"c";"a";"t"]].
-Definition n_vdefer := [["v";"d";"e";"f";"e";"r"]].
-Definition n_vacquire := [["v";"a";"c";"q";"u";"i";"r";"e"]].
-Definition n_vfail := [["v";"f";"a";"i";"l"]].
-Local Close Scope byte_scope.
-
-(* byte-level escapers: unconvertible -> ErrModNoStr; empty text -> value untouched *)
-Definition esc_bytes (f : bytes -> bytes) (c : ctx) (v : value) (args : list argval) : modres :=
-  match text_of (bufLC c) v with
-  | None => MErr c EModNoStr
-  | Some [] => MOk c v
-  | Some b => MOk c (VBytes (repeat_app f (Z.to_nat (print_iterations args)) b))
-  end.
-
-(* rune-level escapers: always publish the (possibly empty) result *)
-Definition esc_runes (f : bytes -> bytes) (c : ctx) (v : value) (args : list argval) : modres :=
-  match text_of (bufLC c) v with
-  | None => MErr c EModNoStr
-  | Some b => MOk c (VBytes (repeat_app f (Z.to_nat (print_iterations args)) b))
-  end.
-
-(* one pass of modJSONQuote *)
-Definition quote_pass (bl : list Z) (v : value) : value :=
-  match text_of bl v with
-  | None => VBytes []
-  | Some b => VBytes (json_quote b)
-  end.
-
-Definition text_or_empty (bl : list Z) (v : value) : bytes :=
-  match text_of bl v with Some b => b | None => [] end.
+Definition err_of_merr (e : merr) : err :=
+  match e with MENoArgs => EModNoArgs | MEPoorArgs => EModPoorArgs | MENoStr => EModNoStr | MEUser => EUser end.
 
 Definition apply_mod (writes : nat) (c : ctx) (m : tmod) (v : value) (args : list argval) : modres :=
   let id := m_id m in
-  if name_is id n_default then
-    match args with
-    | [] => MErr c EModNoArgs
-    | a :: _ => MOk c (if empty_check (bufLC c) v then arg_value a else v)
-    end
-  else if name_is id n_ifthen then
-    match args with
-    | [] => MErr c EModNoArgs
-    | a :: _ => MOk c (match conv_bool v with Some true => arg_value a | _ => v end)
-    end
-  else if name_is id n_ifthenelse then
-    match args with
-    | a :: b :: _ => MOk c (match conv_bool v with Some true => arg_value a | Some false => arg_value b | None => v end)
-    | _ => MErr c EModPoorArgs
-    end
-  else if name_is id n_jsonescape then esc_bytes json_escape c v args
-  else if name_is id n_jsonquote then
-    MOk c (repeat_app (quote_pass (bufLC c)) (Z.to_nat (print_iterations args)) v)
-  else if name_is id n_htmlescape then esc_bytes html_escape c v args
-  else if name_is id n_linkescape then esc_bytes link_escape c v args
-  else if name_is id n_urlencode then esc_bytes url_encode c v args
-  else if name_is id n_attrescape then esc_runes attr_escape_bytes c v args
-  else if name_is id n_cssescape then esc_runes css_escape_bytes c v args
-  else if name_is id n_jsescape then esc_runes js_escape_bytes c v args
-  else if name_is id n_vup then
-    match text_of (bufLC c) v with Some b => MOk c (VBytes (ascii_upper b)) | None => MErr c EUser end
-  else if name_is id n_vcat then
-    MOk c (VBytes (text_or_empty (bufLC c) v ++
-                   flat_map (fun a => match a with
-                                      | AVal x => text_or_empty (bufLC c) x
-                                      | AKV k x => k ++ ["="%byte] ++ text_or_empty (bufLC c) x
-                                      end) args))
-  else if name_is id n_vdefer then
-    match args with
-    | a :: _ => let t := text_or_empty (bufLC c) (arg_value a) in
-                MOk (log_ev (EvDefer t) (set_dfr (dfr c ++ [t]) c)) v
-    | [] => MErr c EModNoArgs
-    end
-  else if name_is id n_vacquire then
-    match args with
-    | a :: _ => let p := text_or_empty (bufLC c) (arg_value a) in
-                MOk (log_ev (EvAcquire p writes) (set_ipv (ipv c ++ [p]) c)) v
-    | [] => MErr c EModNoArgs
-    end
-  else if name_is id n_vfail then MErr c EUser
-  else MUnsupported.
+  match pure_mod (bufLC c) id v args with
+  | POk v' => MOk c v'
+  | PErr e => MErr c (err_of_merr e)
+  | PImpure =>
+    if name_is id n_vdefer then
+      match args with
+      | a :: _ => let t := text_or_empty (bufLC c) (arg_value a) in
+                  MOk (log_ev (EvDefer t) (set_dfr (dfr c ++ [t]) c)) v
+      | [] => MErr c EModNoArgs
+      end
+    else if name_is id n_vacquire then
+      match args with
+      | a :: _ => let p := text_or_empty (bufLC c) (arg_value a) in
+                  MOk (log_ev (EvAcquire p writes) (set_ipv (ipv c ++ [p]) c)) v
+      | [] => MErr c EModNoArgs
+      end
+    else if name_is id n_vfail then MErr c EUser
+    else MUnsupported
+  end.
 
 (* the modifier loop of typeTpl / typeCtx: left to right, each fed the previous result *)
 Inductive chainres := ChOk (c : ctx) (v : value) | ChUnsupported.
@@ -804,7 +722,14 @@ Section Interp.
       | [] => Out (set_brkD saved c) w (cerr c)
       | k :: rest =>
         match find_var k (vars c) with
-        | None => Out (set_brkD saved c) w (cerr c)
+        | None =>
+          (* no such variable: nothing to iterate over, so the else branch *)
+          if loop_has_else child then
+            match else_with write_node (loop_else_nodes child) c w with
+            | Out c' w' _ => Out (set_brkD (Z.max (brkD c') saved) c') w' (cerr c')
+            | o => o
+            end
+          else Out (set_brkD saved c) w (cerr c)
         | Some s =>
           let coll := if is_nil (s_val s) then VNil else if s_static s then s_val s else ins_get (s_val s) rest in
           match (if s_static s then Some [] else ins_loop coll) with
